@@ -8,8 +8,18 @@
   abstracted to the four quantities its receive / forward / refund touch, all for the one coin being
   forwarded:  `v` voucher supply, `er` balance of the escrow account of the channel the packet ARRIVED
   on (the refund channel), `ef` balance of the escrow account of the channel it is FORWARDED on,
-  `te` the ICS-20 total-escrow entry.  When both channels are the same channel `er` and `ef` are one
-  account; the model keeps them apart and `Mid.sameChan` says so.
+  `te` the ICS-20 total-escrow entry, `ov` the balance of PFM's override-receiver account (the
+  hash-derived account that receives the funds and signs the forward).  When arrival and forward
+  channel are the same channel `er` and `ef` are one account; the bookkeeping below is the same.
+
+  Timeouts (ibc_middleware.go `OnTimeoutPacket`, keeper `TimeoutShouldRetry` / `RetryTimeout` /
+  `ForwardTransferPacket`): the in-flight record stored under the forwarded packet's sequence carries
+  `RetriesRemaining`; a timeout with retries left lets ICS-20 refund the override receiver
+  (`app.OnTimeoutPacket`) and sends the same coin again (new sequence, record moved, counter
+  decremented); a timeout with `RetriesRemaining <= 0` removes the record and runs the very refund
+  function of the error-acknowledgement path.  Whether the re-send succeeds is a parameter
+  (`sendOk`); if it fails `OnTimeoutPacket` returns the error and the whole timeout transaction
+  reverts — the packet stays in flight (liveness caveat, not a safety issue).
 -/
 import IbcVerif.Model.Denom
 namespace IbcVerif.Pfm
@@ -34,19 +44,28 @@ structure Mid where
   er : Int
   ef : Int
   te : Int
+  ov : Int
 deriving DecidableEq, Repr
 
-/-- `OnRecvPacket` of ICS-20 for `a` units: mint a voucher, or pay out of the arrival channel's escrow -/
+/-- `OnRecvPacket` of ICS-20 for `a` units (receiver overridden by PFM): mint a voucher to the override
+    receiver, or pay it out of the arrival channel's escrow -/
 def recvEff (k : RecvKind) (a : Int) (m : Mid) : Mid :=
   match k with
-  | .mint => { m with v := m.v + a }
-  | .unescrow => { m with er := m.er - a, te := m.te - a }
+  | .mint => { m with v := m.v + a, ov := m.ov + a }
+  | .unescrow => { m with er := m.er - a, te := m.te - a, ov := m.ov + a }
 
 /-- `sendTransfer` of ICS-20 for the forward: escrow on the forward channel, or burn the voucher -/
 def fwdEff (k : FwdKind) (a : Int) (m : Mid) : Mid :=
   match k with
-  | .escrow => { m with ef := m.ef + a, te := m.te + a }
-  | .burn => { m with v := m.v - a }
+  | .escrow => { m with ef := m.ef + a, te := m.te + a, ov := m.ov - a }
+  | .burn => { m with v := m.v - a, ov := m.ov - a }
+
+/-- ICS-20's own refund of a timed-out (or error-acknowledged) transfer to its sender — here the
+    override receiver — `refundPacketTokens`: unescrow, or mint the burnt voucher back -/
+def ics20Refund (k : FwdKind) (a : Int) (m : Mid) : Mid :=
+  match k with
+  | .escrow => { m with ef := m.ef - a, te := m.te - a, ov := m.ov + a }
+  | .burn => { m with v := m.v + a, ov := m.ov + a }
 
 /-- `WriteAcknowledgementForForwardedPacket` on failure, branch selection exactly as coded:
     `fwdBurnt`  = `denom.HasPrefix(packet.SourcePort, packet.SourceChannel)` (the forward burnt),
@@ -75,12 +94,84 @@ inductive Outcome | delivered | refundedClean | refundedDirty
 deriving DecidableEq, Repr
 
 /-- does the coded refund put this intermediate chain back exactly (for one unit; linear in the amount) -/
-def FHop.restores (h : FHop) : Bool := bounceBack h 1 ⟨0, 0, 0, 0⟩ == ⟨0, 0, 0, 0⟩
+def FHop.restores (h : FHop) : Bool := bounceBack h 1 ⟨0, 0, 0, 0, 0⟩ == ⟨0, 0, 0, 0, 0⟩
 
 /-- a whole route: the intermediate chains that forwarded, and whether something failed downstream of them -/
 def routeOutcome (forwarded : List FHop) (failed : Bool) : Outcome :=
   if !failed then .delivered
   else if forwarded.all FHop.restores then .refundedClean
   else .refundedDirty
+
+/-! ### timeouts and retries -/
+
+/-- the in-flight record (`types.InFlightPacket`) of the forward, as far as timeouts are concerned -/
+structure InFlight where
+  seq : Nat                 -- sequence of the forwarded packet the record is stored under
+  retriesRemaining : Int    -- int32 `RetriesRemaining`
+deriving DecidableEq, Repr
+
+/-- an intermediate chain: the five quantities, the in-flight record of this forward (if any), and the
+    next send sequence of the forward channel -/
+structure Node where
+  m : Mid
+  flight : Option InFlight
+  nextSeq : Nat
+deriving DecidableEq, Repr
+
+/-- `ForwardTransferPacket` (the send succeeded): ICS-20 escrows / burns, the record is stored under the
+    new sequence — with `maxRetries` for a first forward, with `RetriesRemaining - 1` for a retry -/
+def forwardOk (h : FHop) (a : Int) (retries : Int) (n : Node) : Node :=
+  { m := fwdEff h.fwd a n.m, flight := some ⟨n.nextSeq, retries⟩, nextSeq := n.nextSeq + 1 }
+
+/-- `OnRecvPacket` of PFM: receive the funds into the override receiver, forward.  If the forward fails
+    (`sendOk = false`) PFM answers with an error acknowledgement and core discards the whole receive. -/
+def receiveAndForward (h : FHop) (a : Int) (retries : Nat) (sendOk : Bool) (n : Node) : Node :=
+  if sendOk then forwardOk h a retries { n with m := recvEff h.recv a n.m } else n
+
+inductive TimeoutResult
+  | retried       -- re-sent under a new sequence
+  | gaveUp        -- retries exhausted: refunded upstream with an error acknowledgement
+  | reverted      -- the re-send failed: the timeout transaction reverts, packet still in flight
+  | notInFlight   -- not a forwarded packet of PFM: plain ICS-20 timeout
+deriving DecidableEq, Repr
+
+/-- `OnTimeoutPacket` for the forwarded packet with sequence `seq` -/
+def onTimeout (h : FHop) (a : Int) (sendOk : Bool) (seq : Nat) (n : Node) : Node × TimeoutResult :=
+  match n.flight with
+  | some r =>
+    if r.seq = seq then
+      if r.retriesRemaining ≤ 0 then
+        -- TimeoutShouldRetry returns the record AND an error: RemoveInFlightPacket, then the same refund as
+        -- for an error acknowledgement (app.OnTimeoutPacket is NOT called on this path)
+        ({ n with m := refund h.recv h.fwd a n.m, flight := none }, .gaveUp)
+      else if sendOk then
+        -- RemoveInFlightPacket; app.OnTimeoutPacket (ICS-20 refunds the override receiver); RetryTimeout
+        (forwardOk h a (r.retriesRemaining - 1) { n with m := ics20Refund h.fwd a n.m, flight := none }, .retried)
+      else (n, .reverted)
+    else (n, .notInFlight)
+  | none => (n, .notInFlight)
+
+/-- the error-acknowledgement path (`OnAcknowledgementPacket` with an in-flight record): record removed,
+    refund -/
+def onErrorAck (h : FHop) (a : Int) (seq : Nat) (n : Node) : Node :=
+  match n.flight with
+  | some r => if r.seq = seq then { n with m := refund h.recv h.fwd a n.m, flight := none } else n
+  | none => n
+
+/-- a run of timeouts of whatever packet of this forward is currently in flight; one Boolean per timeout
+    says whether a re-send would succeed -/
+def afterTimeouts (h : FHop) (a : Int) : Node → List Bool → Node
+  | n, [] => n
+  | n, ok :: rest =>
+    match n.flight with
+    | some r => afterTimeouts h a (onTimeout h a ok r.seq n).1 rest
+    | none => n
+
+/-- the end of a failing hop: if the forward is still in flight the downstream error acknowledgement
+    arrives and is refunded; if PFM already gave up nothing is left to do -/
+def settleFailed (h : FHop) (a : Int) (n : Node) : Node :=
+  match n.flight with
+  | some r => onErrorAck h a r.seq n
+  | none => n
 
 end IbcVerif.Pfm
